@@ -2,101 +2,100 @@
  * C12, mechanisms 1+2: undo_write_tdb() — "the old content of every not-yet-saved undo block in the range is
  * read and appended to the undo file; a bitmap of already-saved blocks guarantees first-write-wins".
  *
- * SPEC (independent of the code's arithmetic; undo_io.c's own comment: "We divide the disk to blocks of
- * tdb_data_size"): undo block t stands for the DEVICE bytes [t*tdb, (t+1)*tdb), i.e. the filesystem bytes
- * [t*tdb - off, (t+1)*tdb - off) (off = filesystem offset).  A request (block,count) on a channel with
- * block size bs touches the filesystem bytes [block*bs, block*bs+SIZE) (specs/undo_spec.h), hence the undo
- * blocks t0 = (block*bs+off)/tdb ... t1 = (block*bs+off+SIZE-1)/tdb.
- * For ONE ghost undo block t* (verif_k), after undo_write_tdb returned 0 with an undo file configured:
- *   t* in [t0,t1]: bit(t*) is set, and
- *       bit was clear on entry: the backing channel was read exactly once for exactly the filesystem range
- *           [t* *tdb - off, +tdb) (no backing-channel write happens inside undo_write_tdb at all), the very
- *           buffer that read filled was appended at the next free undo-file block with the byte count that
- *           was read, and when the index was written the last key of the key block covered that range
- *           (fsblk*bs <= start, start+len <= fsblk*bs+size);  a zero-length short read appends nothing;
- *       bit was set on entry: no such read, nothing appended for t* (first write wins);
- *   t* outside [t0,t1]: bit unchanged, not read, nothing appended.
- * Ghost registers (declared in include/e2fsprogs_verif.h, defined here):
- *   verif_k = t*; verif_g6 = t0; verif_g0 = bit(t*); verif_old_bit = bit(t*) on entry;
- *   verif_g1 = number of exact backing reads for t*; verif_g2 = data appends for t*; verif_g3 = index writes
- *   that covered t*; verif_g4 = 1 between the read for t* and its index write; verif_g5 = bytes that read
- *   delivered; verif_g7 = protocol violations seen by the stubs (must stay 0); verif_p0 = buffer of the read.
+ * SPEC (specs/undo_spec.h, written from the io_channel convention, the undo-file key format and the way
+ * try_reopen_undo_file()/e2undo interpret a key; not from undo_write_tdb's arithmetic):
+ *   a request (block,count) on a channel with block size bs touches the FILESYSTEM bytes
+ *   [lo,hi) = [block*bs, block*bs+SIZE);  undo block t (bit t of written_block_map) stands for the filesystem
+ *   bytes R(t) = [(t-ORG)*tdb, (t-ORG+1)*tdb), ORG = UNDO_ORIGIN(fs offset, tdb) the numbering origin;
+ *   the request therefore concerns exactly the undo blocks T0 = lo/tdb+ORG ... T1 = (hi-1)/tdb+ORG.
+ * For ONE ghost undo block t* (MC.tstar, arbitrary), after undo_write_tdb returned 0 with an undo file configured:
+ *   t* in [T0,T1]: bit(t*) is set, and
+ *       bit was clear on entry: the backing channel was read exactly once for exactly R(t*); no write reaches the
+ *           backing channel inside undo_write_tdb at all (so the read is BEFORE any write of the caller); the very
+ *           buffer that read filled was appended at the next free undo-file block with the byte count the read
+ *           delivered; the crc32c of exactly that buffer/length was computed once, seeded with ~0 for a new key
+ *           or with the crc of the key that is extended; and when the index was written the last key of the key
+ *           block carried that crc and described the bytes exactly: fsblk*bs <= start(R(t*)),
+ *           fsblk*bs + size == start(R(t*)) + bytes read (keys are in filesystem blocks of the CHANNEL block size,
+ *           which write_undo_indexes records as fs_block_size).  A zero-length short read appends nothing;
+ *       bit was set on entry: no read of R(t*), nothing appended for t*, no key touched for it (first write wins);
+ *   t* outside [T0,T1]: bit unchanged, R(t*) not read, nothing appended.
+ *   (C12 itself needs only the "in range" half; "outside untouched" is the stronger statement of DESIGN.md.)
  *
- * Needs the in-place loop contract of hooks-pending/b7.diff (lib/ext2fs/undo_io.c).
+ * Ghost monitor: struct M (mutable, one assigns target) and MC (constants of the run), moved only by the stubs
+ * of the callees that live in other files (io_channel_read_blk64/write_blk64, bitmap test/mark, crc32c) and by
+ * the contract of write_undo_indexes (same file; proved against its body by unit undo/undo_write_indexes).
+ * The loop `while (block_num <= end_block)` is closed by the in-place loop contract named
+ * VERIF_INV_UNDO_WRITE_TDB_LOOP in lib/ext2fs/undo_io.c, whose text is defined below (named-anchor pattern).
  *
- * STATUS (both units "wip", time box exceeded):
- *  - With the loop contract of hooks-pending/b7.diff and ONE configuration (bs=1024, tdb=1024, define ONE_CFG)
- *    every obligation of undo_write_tdb_aligned is discharged (1635 obligations, ~90-130 s with cadical), BUT the
- *    canaries REACH:saved / REACH:already-saved / in-range-ok are NOT reachable: cbmc --cover location shows
- *    that the step copy of the loop (after the loop-contract havoc) is never entered, i.e. the proof is vacuous
- *    for the interesting paths.  Suspected cause: the DFCC library loops over the 29 assigns-clause targets of
- *    the loop need more than the global --unwind 8 (paths are cut); with "unwind": 40 the query did not finish
- *    in 280 s on the shared machine.  Next steps: shrink the loop assigns clause (group the ghost registers
- *    in one struct / drop unused targets), or give the library loops their own unwindset.
- *  - All 9 configurations in one harness run out of memory (12 GB) -> use ONE_CFG per configuration.
- *  - DFCC forbids malloc/free inside a contract loop: the per-block buffer is served from a harness pool
- *    (verif_malloc/verif_free, see below).
- *
- * EXPECTED RESULT of the unrestricted unit undo_write_tdb (confirmed so far only by reading the code and by
- * the end-to-end demo findings/C12_write_byte_offset/demo2.sh, NOT yet by a verifier counterexample):
- *   (a) off % tdb != 0: the code reads the range starting at t*tdb + off%tdb, not t*tdb, while choosing t by
- *       (block*bs+off)/tdb — the first (off%tdb) bytes of the first touched undo block are not saved unless
- *       block t-1 happens to be saved already (mke2fs -z with -E offset=32256 is not undone);
- *   (b) tdb < bs: backing_blk_num = .../bs truncates, every undo block inside one fs block re-reads the first
- *       tdb bytes of that fs block (not reachable from the tools: tdb >= bs there).
+ * One (bs, tdb) pair per unit: the divisions/products are by literals (symbolic divisors do not terminate).
  */
 /* VERIF-UNIT
-{
- "name": "undo_write_tdb_aligned",
- "defines": ["ONE_CFG=1024,1024"],
- "props": ["C12"],
- "level": "U",
- "tier": "wip",
- "harness": "h_write_tdb_aligned",
- "enforce": ["undo_write_tdb"],
- "replace": ["undo_setup_tdb", "write_undo_indexes"],
- "loop_contracts": true,
- "sources": ["lib/ext2fs/io_manager.c"],
- "cbmc_flags": ["--object-bits", "12"],
- "unwind": 40,
- "unwind_reason": "only DFCC library loops over assigns-clause targets are unwound; the function's own loop is closed by its in-place loop contract",
+{"name": "undo_write_tdb_aligned", "defines": ["NO_INLINE_FUNCS", "CFG_BS=4096", "CFG_TDB=32768", "ALIGNED_ONLY=1"],
+ "props": ["C12"], "level": "U", "tier": "wip", "harness": "h_write_tdb",
+ "enforce": ["undo_write_tdb"], "replace": ["undo_setup_tdb", "write_undo_indexes"], "loop_contracts": true,
+ "unwind": 24, "unwind_reason": "only DFCC library loops over the 18 assigns-clause targets are unwound; the function's own loop is closed by its in-place loop contract",
  "functions": ["lib/ext2fs/undo_io.c:undo_write_tdb"],
- "assumes": ["channel block size bs and tdb_data_size in {1024,4096,32768}, tdb % bs == 0, filesystem offset % tdb == 0 (other configurations: unit undo_write_tdb, which fails)",
-             "undo file already set up by an earlier call (tdb_written == 1, key block allocated): undo_setup_tdb replaced by a contract that says so",
-             "request byte count fits in int, block <= 2^44, 0 <= offset <= 2^60",
-             "bits of undo blocks other than t* are arbitrary (over-approximated); crc32c is an uninterpreted stub; host is little-endian",
-             "write_undo_indexes behaves as its contract says (key block bookkeeping; proved by unit write_undo_indexes)",
-             "a short read reports 0 <= actual_size < tdb through the read_error handler as unix_io does",
-             "the last key of the current key block has a size that is a multiple of the fs block size (no earlier short read)",
-             "malloc/free of the per-block buffer are served from a harness pool (DFCC forbids allocation inside contract loops); allocation may still fail"],
- "backend": "cadical",
- "native": false
+ "assumes": ["channel block size 4096, tdb_data_size 32768 (mke2fs -z on a 4k filesystem); filesystem offset a multiple of tdb_data_size, 0 <= offset <= 2^60",
+   "bit numbering origin UNDO_ORIGIN = offset/tdb (specs/undo_spec.h)",
+   "undo file already set up by an earlier call (tdb_written == 1, key block allocated, not full): undo_setup_tdb replaced by a contract that says so",
+   "request byte count in [1, INT_MAX], block <= 2^44",
+   "bits of undo blocks other than t* are arbitrary (over-approximated); crc32c is an uninterpreted function observed by the monitor; host is little-endian",
+   "write_undo_indexes behaves as its contract says (flushes the key block, keeps keys_in_block < keys per block on success)",
+   "a short read reports 0 <= actual_size < tdb through the read_error handler as unix_io does",
+   "the exact key description (fsblk*bs + size == end of the saved bytes, crc chain) is demanded when the key block's last key was well formed at the time of the read (size a multiple of the channel block size i.e. no short read went into it, <= 512 undo blocks, fsblk < 2^48); after a short read only data beyond the original end of the device can follow"],
+ "backend": "cadical", "native": false, "timeout": 300
 }
 */
 /* VERIF-UNIT
-{
- "name": "undo_write_tdb",
- "props": ["C12"],
- "level": "U",
- "tier": "wip",
- "harness": "h_write_tdb",
- "enforce": ["undo_write_tdb"],
- "replace": ["undo_setup_tdb", "write_undo_indexes"],
- "loop_contracts": true,
- "sources": ["lib/ext2fs/io_manager.c"],
- "cbmc_flags": ["--object-bits", "12"],
- "unwind": 40,
- "unwind_reason": "only DFCC library loops over assigns-clause targets are unwound; the function's own loop is closed by its in-place loop contract",
+{"name": "undo_write_tdb_aligned_1k_1k", "defines": ["NO_INLINE_FUNCS", "CFG_BS=1024", "CFG_TDB=1024", "ALIGNED_ONLY=1"],
+ "props": ["C12"], "level": "U", "tier": "wip", "harness": "h_write_tdb",
+ "enforce": ["undo_write_tdb"], "replace": ["undo_setup_tdb", "write_undo_indexes"], "loop_contracts": true,
+ "unwind": 24, "unwind_reason": "only DFCC library loops over the 18 assigns-clause targets are unwound; the function's own loop is closed by its in-place loop contract",
  "functions": ["lib/ext2fs/undo_io.c:undo_write_tdb"],
- "assumes": ["as undo_write_tdb_aligned but any of the 9 (bs, tdb) combinations and any offset in [0, 2^60]"],
- "native": false
+ "assumes": ["as undo_write_tdb_aligned, with channel block size 1024 and tdb_data_size 1024 (tune2fs/e2fsck/resize2fs/debugfs on a 1k filesystem)"],
+ "backend": "cadical", "native": false, "timeout": 300
+}
+*/
+/* VERIF-UNIT
+{"name": "undo_write_tdb_aligned_1k_4k", "defines": ["NO_INLINE_FUNCS", "CFG_BS=1024", "CFG_TDB=4096", "ALIGNED_ONLY=1"],
+ "props": ["C12"], "level": "U", "tier": "wip", "harness": "h_write_tdb",
+ "enforce": ["undo_write_tdb"], "replace": ["undo_setup_tdb", "write_undo_indexes"], "loop_contracts": true,
+ "unwind": 24, "unwind_reason": "only DFCC library loops over the 18 assigns-clause targets are unwound; the function's own loop is closed by its in-place loop contract",
+ "functions": ["lib/ext2fs/undo_io.c:undo_write_tdb"],
+ "assumes": ["as undo_write_tdb_aligned, with channel block size 1024 and tdb_data_size 4096 (superblock-sized accesses on a 4k filesystem)"],
+ "backend": "cadical", "native": false, "timeout": 300
+}
+*/
+/* VERIF-UNIT
+{"name": "undo_write_tdb", "defines": ["NO_INLINE_FUNCS", "CFG_BS=4096", "CFG_TDB=32768"],
+ "props": ["C12"], "level": "U", "tier": "wip", "harness": "h_write_tdb",
+ "enforce": ["undo_write_tdb"], "replace": ["undo_setup_tdb", "write_undo_indexes"], "loop_contracts": true,
+ "unwind": 24, "unwind_reason": "only DFCC library loops over the 18 assigns-clause targets are unwound; the function's own loop is closed by its in-place loop contract",
+ "functions": ["lib/ext2fs/undo_io.c:undo_write_tdb"],
+ "assumes": ["as undo_write_tdb_aligned but ANY filesystem offset in [0, 2^60] (mke2fs -E offset=N -z)"],
+ "backend": "cadical", "native": false, "timeout": 300
+}
+*/
+/* VERIF-UNIT
+{"name": "undo_write_tdb_small_tdb", "defines": ["NO_INLINE_FUNCS", "CFG_BS=4096", "CFG_TDB=1024", "ALIGNED_ONLY=1"],
+ "props": ["C12"], "level": "U", "tier": "wip", "harness": "h_write_tdb",
+ "enforce": ["undo_write_tdb"], "replace": ["undo_setup_tdb", "write_undo_indexes"], "loop_contracts": true,
+ "unwind": 24, "unwind_reason": "only DFCC library loops over the 18 assigns-clause targets are unwound; the function's own loop is closed by its in-place loop contract",
+ "functions": ["lib/ext2fs/undo_io.c:undo_write_tdb"],
+ "assumes": ["as undo_write_tdb_aligned, with channel block size 4096 and tdb_data_size 1024 (undo block smaller than the channel block)"],
+ "backend": "cadical", "native": false, "timeout": 300
 }
 */
 #include "verif.h"
 #include "undo_spec.h"
 
+#ifndef CFG_BS
+#define CFG_BS 4096
+#define CFG_TDB 32768
+#endif
+
 struct in_tdb {
-	int cfg;
 	unsigned long long block;
 	int count;
 	long long fs_offset;
@@ -107,46 +106,75 @@ struct in_tdb {
 struct in_tdb IN;
 #include "verif_in.h"
 
-unsigned long long verif_k;
-int verif_old_bit;
-unsigned long long verif_g0, verif_g1, verif_g2, verif_g3, verif_g4, verif_g5, verif_g6, verif_g7;
-const unsigned char *verif_p0, *verif_p1, *verif_p2, *verif_p3;
+/* constants of one run */
+struct tdb_monc {
+	unsigned long long tstar;	/* ghost undo block t* */
+	unsigned long long start;	/* first filesystem byte of R(t*) (meaningful when tstar >= origin) */
+	int has_range;			/* tstar >= origin and R(t*) below UNDO_MAX_BYTE: R(t*) lies in the filesystem */
+	int old_bit;			/* bit(t*) on entry */
+};
+/* mutable ghost state: ONE assigns target */
+struct tdb_mon {
+	int bit;			/* bit(t*) */
+	unsigned int reads;		/* backing-channel reads of exactly R(t*) */
+	unsigned int appends;		/* data appends for t* */
+	unsigned int idx;		/* index writes that covered t* */
+	unsigned int crcs;		/* crc computations over the buffer of t* */
+	int pending;			/* read for t* done, index not yet written */
+	unsigned long long nbytes;	/* bytes that read delivered */
+	unsigned int crc_out, crc_seed;	/* result / seed of the crc computation for t* */
+	unsigned int prev_crc;		/* crc of the last key when the read for t* happened */
+	int prev_wf;			/* the last key was well formed then (or there was none): size a nonzero multiple of the
+					 * channel block size (no short read went into it), <= 512 undo blocks, fsblk < 2^48 */
+	int pool_busy;			/* the block buffer is allocated */
+	int hard_err;			/* a callee failed with something else than a short read */
+	int viol;			/* protocol violations seen by the stubs (must stay 0) */
+	const void *buf;		/* buffer of the read for t* */
+};
+struct tdb_monc MC;
+struct tdb_mon M;
+static unsigned char POOL[CFG_TDB];	/* see ext2fs_get_mem below */
 
-/*
- * CBMC 6.11 DFCC refuses malloc/free inside a loop that carries a loop contract ("dynamic allocation is
- * allowed" / "ptr is freeable" obligations of the loop write set).  The one block buffer the loop body
- * allocates and frees again (read_ptr) is therefore served from a harness pool (verif_p1), which the loop
- * contract lists as assignable.  Allocation failure is still possible.
- */
 #ifndef VERIF_NATIVE
 int nondet_int(void);
 long nondet_long(void);
 unsigned int nondet_uint(void);
-unsigned char VERIF_POOL[32768];
-void *verif_malloc(unsigned long n) { return (n <= sizeof(VERIF_POOL) && nondet_int()) ? (void *)VERIF_POOL : (void *)0; }
-void verif_free(void *p) { }
-#define malloc verif_malloc
-#define free verif_free
 #endif
+
+#define M_DONE_SAVED (M.bit == 1 && M.reads == 1 && M.crcs == (M.nbytes != 0) && \
+		      M.appends == (M.nbytes != 0) && M.idx == (M.nbytes != 0))
+#define M_DONE_KEPT (M.bit == 1 && M.reads == 0 && M.appends == 0 && M.idx == 0 && M.crcs == 0)
+#define M_UNTOUCHED (M.bit == MC.old_bit && M.reads == 0 && M.appends == 0 && M.idx == 0 && M.crcs == 0)
+#define M_PROCESSED (MC.old_bit ? M_DONE_KEPT : M_DONE_SAVED)
+
+/* the loop contract of `while (block_num <= end_block)` in undo_write_tdb (named anchor in undo_io.c) */
+#define VERIF_INV_UNDO_WRITE_TDB_LOOP \
+	__CPROVER_assigns(block_num, offset, backing_blk_num, retval, read_ptr, sz, data_size, key, blk_crc, \
+			  actual_size, data->num_keys, data->keys_in_block, data->undo_blk_num, \
+			  data->key_blk_num, data->hdr, __CPROVER_object_whole(data->keyb), M, __CPROVER_object_whole(POOL)) \
+	__CPROVER_loop_invariant(__CPROVER_loop_entry(block_num) <= block_num && block_num <= end_block + 1) \
+	__CPROVER_loop_invariant(data->keys_in_block < data->tdb_data_size / 16 - 1) \
+	__CPROVER_loop_invariant(M.pending == 0 && M.viol == 0 && M.pool_busy == 0 && \
+				 M.hard_err == 0 && (retval == 0 || retval == EXT2_ET_SHORT_READ)) \
+	__CPROVER_loop_invariant((MC.tstar >= __CPROVER_loop_entry(block_num) && MC.tstar < block_num) ? \
+				 M_PROCESSED : M_UNTOUCHED) \
+	__CPROVER_decreases(end_block + 1 - block_num)
+
 #include "lib/ext2fs/undo_io.c"
-#undef malloc
-#undef free
 
 static struct struct_io_channel CH, REAL, UFILE;
 static struct undo_private_data DATA;
-static struct struct_io_manager REAL_MGR, UFILE_MGR;
 
 #define DATA_OF(ch) ((struct undo_private_data *)(ch)->private_data)
 #define KPB(d) ((d)->tdb_data_size / 16 - 1)
+#define LASTKEY(d) ((d)->keyb->keys[(d)->keys_in_block - 1])
 
-/* filesystem byte where the range of undo block t* starts (may be negative: before the filesystem) */
-#define STAR_START ((long long)(verif_k * DATA.tdb_data_size) - DATA.offset)
-
-/* last key of the current key block covers [STAR_START, STAR_START + verif_g5) */
-#define LASTKEY_COVERS(d, bs) ((d)->keys_in_block >= 1 && (d)->keys_in_block <= KPB(d) && \
-	(long long)((d)->keyb->keys[(d)->keys_in_block - 1].fsblk * (unsigned long long)(bs)) <= STAR_START && \
-	STAR_START + (long long)verif_g5 <= (long long)((d)->keyb->keys[(d)->keys_in_block - 1].fsblk * (unsigned long long)(bs)) + \
-					    (long long)(d)->keyb->keys[(d)->keys_in_block - 1].size)
+/* the index about to be written describes the block that was just appended (see SPEC above) */
+#define LASTKEY_DESCRIBES(d, bs) ((d)->keys_in_block >= 1 && (d)->keys_in_block <= KPB(d) && \
+	M.crcs == 1 && LASTKEY(d).blk_crc == M.crc_out && \
+	LASTKEY(d).fsblk * (unsigned long long)(bs) <= MC.start && \
+	LASTKEY(d).fsblk * (unsigned long long)(bs) + LASTKEY(d).size == MC.start + M.nbytes && \
+	(LASTKEY(d).fsblk * (unsigned long long)(bs) == MC.start ? M.crc_seed == 0xffffffffu : M.crc_seed == M.prev_crc))
 
 /* ---- callees of the same file, by contract ---- */
 static errcode_t undo_setup_tdb(struct undo_private_data *data)
@@ -157,216 +185,222 @@ static errcode_t undo_setup_tdb(struct undo_private_data *data)
 static errcode_t write_undo_indexes(struct undo_private_data *data, int flush)
 	REQUIRES(flush == 0)
 	REQUIRES(data->keys_in_block <= KPB(data))
-	/* the index that is about to be written describes the block that was just appended */
-	REQUIRES(verif_g4 == 0 || LASTKEY_COVERS(data, CH.block_size))
+	REQUIRES(M.pending == 0 || (M.appends == 1 && (!M.prev_wf || LASTKEY_DESCRIBES(data, CFG_BS))))
 	ASSIGNS(data->hdr, data->keys_in_block, data->key_blk_num, data->undo_blk_num,
-		__CPROVER_object_whole(data->keyb), verif_g3, verif_g4)
-	ENSURES(verif_g4 == 0 && verif_g3 == OLD(verif_g3) + OLD(verif_g4))
+		__CPROVER_object_whole(data->keyb), M.idx, M.pending, M.hard_err)
+	ENSURES(M.pending == 0 && M.idx == OLD(M.idx) + (unsigned)OLD(M.pending))
+	ENSURES(RET == 0 ? M.hard_err == OLD(M.hard_err) : M.hard_err == 1)
 	ENSURES(RET != 0 || data->keys_in_block < KPB(data));
 
-/* ---- callees of other files: stubs ---- */
-int ext2fs_test_generic_bmap(ext2fs_generic_bitmap bmap, __u64 arg)
+/* ---- callees of other files: stubs that move the monitor ---- */
+/* NO_INLINE_FUNCS: the helpers of ext2fs.h/bitops.h are external functions (lib/ext2fs/inline.c) and are stubbed here.
+ * CBMC 6.11 DFCC creates the write set of a contracted loop with allow_allocate = allow_deallocate = false, i.e.
+ * malloc/free inside the loop body fail "dynamic allocation is allowed"/"ptr is freeable".  The one block buffer the
+ * loop body allocates and frees again (read_ptr) is therefore served from a one-slot harness pool; the monitor
+ * checks the allocate/free discipline (no double allocation, free of exactly the handed-out buffer, no leak at
+ * the loop head and on return).  Allocation may fail.  On failure the stub stores NULL (the real helper leaves
+ * *ptr alone; undo_write_tdb returns at once): otherwise the loop-havocked old value of read_ptr stays in its
+ * points-to set and every object becomes a candidate of the following memset. */
+errcode_t ext2fs_get_mem(unsigned long size, void *ptr)
 {
-	if (arg == verif_k)
-		return (int)verif_g0;
+	void *pp = 0;
+	if (size == CFG_TDB && !M.pool_busy && nondet_int()) {
+		pp = POOL;
+		M.pool_busy = 1;
+	} else if (size != CFG_TDB || M.pool_busy)
+		M.viol = 1;
+	*(void **)ptr = pp;
+	if (!pp)
+		M.hard_err = 1;
+	return pp ? 0 : EXT2_ET_NO_MEMORY;
+}
+void free(void *p)
+{
+	if (p != (void *)POOL || !M.pool_busy)
+		M.viol = 1;
+	M.pool_busy = 0;
+}
+int ext2fs_test_block_bitmap2(ext2fs_block_bitmap bmap, blk64_t arg)
+{
+	if (bmap != DATA.written_block_map)
+		M.viol = 1;
+	if (arg == MC.tstar)
+		return M.bit;
 	return nondet_int() != 0;	/* other undo blocks: arbitrary */
 }
-int ext2fs_mark_generic_bmap(ext2fs_generic_bitmap bmap, __u64 arg)
+int ext2fs_mark_block_bitmap2(ext2fs_block_bitmap bmap, blk64_t arg)
 {
-	if (arg == verif_k)
-		verif_g0 = 1;
+	if (bmap != DATA.written_block_map)
+		M.viol = 1;
+	if (arg == MC.tstar)
+		M.bit = 1;
 	return 0;
 }
 __u32 ext2fs_crc32c_le(__u32 crc, unsigned char const *p, size_t len)
 {
-	return nondet_uint();
+	__u32 c = nondet_uint();
+	if (M.pending && (const void *)p == M.buf) {
+		if (len != M.nbytes)
+			M.viol = 1;
+		M.crcs++;
+		M.crc_out = c;
+		M.crc_seed = crc;
+	}
+	return c;
 }
 
-/* backing channel: read records whether it is THE read for t*; every write is a protocol violation */
-static errcode_t st_real_read_blk64(io_channel ch, unsigned long long block, int count, void *buf)
+/* backing channel: a read of exactly R(t*) is THE read for t*; the undo file is never read here */
+errcode_t io_channel_read_blk64(io_channel ch, unsigned long long block, int count, void *buf)
 {
 	long r = nondet_long();
-	long long lo = (long long)UNDO_LO(ch->block_size, block);
-	if (ch != &REAL)
-		verif_g7 = 1;
-	if (lo == STAR_START && UNDO_SIZE(ch->block_size, count) == (long long)DATA.tdb_data_size) {
-		if (verif_g4 != 0 || verif_g2 != 0)
-			verif_g7 = 1;	/* read for t* after its append started */
-		verif_g1++;
-		verif_p0 = buf;
-		if (r == 0) {
-			verif_g5 = DATA.tdb_data_size;
-			verif_g4 = 1;
-		} else if (r == EXT2_ET_SHORT_READ) {
-			int a = nondet_int();
-			ASSUME(a >= 0 && (unsigned long long)a < DATA.tdb_data_size);
-			actual_size = a;	/* what undo_io_read_error() records */
-			verif_g5 = a;
-			verif_g4 = a != 0;
-		} else {
-			verif_g5 = 0;
-		}
+	int a = nondet_int();
+
+	if (ch != &REAL) {
+		M.viol = 1;
 		return r;
 	}
+	if (r != 0 && r != EXT2_ET_SHORT_READ)
+		M.hard_err = 1;
 	if (r == EXT2_ET_SHORT_READ) {
-		int a = nondet_int();
 		ASSUME(a >= 0 && (unsigned long long)a < DATA.tdb_data_size);
-		actual_size = a;
+		actual_size = a;	/* what undo_io_read_error() records */
+	}
+	if (MC.has_range && UNDO_LO(ch->block_size, block) == MC.start &&
+	    UNDO_SIZE(ch->block_size, count) == (long long)DATA.tdb_data_size) {
+		if (M.pending || M.appends)
+			M.viol = 1;	/* read for t* after its append started */
+		M.reads++;
+		M.buf = buf;
+		M.nbytes = r == 0 ? DATA.tdb_data_size : r == EXT2_ET_SHORT_READ ? (unsigned long long)a : 0;
+		M.pending = M.nbytes != 0;
+		M.prev_crc = DATA.keys_in_block ? LASTKEY(&DATA).blk_crc : 0;
+		M.prev_wf = DATA.keys_in_block == 0 ||
+			(LASTKEY(&DATA).size != 0 && LASTKEY(&DATA).size % (unsigned)CFG_BS == 0 && LASTKEY(&DATA).fsblk < (1ULL << 48) &&
+			 LASTKEY(&DATA).size <= E2UNDO_MAX_EXTENT_BLOCKS * (unsigned long long)CFG_TDB);
 	}
 	return r;
 }
-static errcode_t st_real_write_blk64(io_channel ch, unsigned long long block, int count, const void *buf)
+/* undo file: a data append while the read for t* is pending must be that buffer, at the next free block;
+ * nothing is written to the backing channel inside undo_write_tdb */
+errcode_t io_channel_write_blk64(io_channel ch, unsigned long long block, int count, const void *buf)
 {
-	verif_g7 = 1;
-	return 0;
-}
-/* undo file: a data append while the read for t* is pending must be that buffer, at the next free block */
-static errcode_t st_ufile_write_blk64(io_channel ch, unsigned long long block, int count, const void *buf)
-{
-	if (ch != &UFILE)
-		verif_g7 = 1;
-	if (verif_g4 == 1) {
-		if (buf != verif_p0 || block != DATA.undo_blk_num ||
-		    UNDO_SIZE(ch->block_size, count) != (long long)verif_g5)
-			verif_g7 = 1;
-		verif_g2++;
+	if (ch != &UFILE) {
+		M.viol = 1;
+		return 0;
 	}
-	return nondet_long();
+	if (M.pending) {
+		if (buf != M.buf || block != DATA.undo_blk_num ||
+		    UNDO_SIZE(ch->block_size, count) != (long long)M.nbytes)
+			M.viol = 1;
+		M.appends++;
+	}
+	{
+		long r = nondet_long();
+		if (r != 0)
+			M.hard_err = 1;
+		return r;
+	}
 }
 
-static void build(int bs, unsigned long long tdb)
+/* spec view of the request */
+#define ORG(ch) UNDO_ORIGIN(DATA_OF(ch)->offset, DATA_OF(ch)->tdb_data_size)
+#define T0(ch, block) (UNDO_LO((ch)->block_size, block) / DATA_OF(ch)->tdb_data_size + ORG(ch))
+#define T1(ch, block, count) ((UNDO_LO((ch)->block_size, block) + (unsigned long long)UNDO_SIZE((ch)->block_size, count) - 1) / \
+			      DATA_OF(ch)->tdb_data_size + ORG(ch))
+#define IN_RANGE(ch, block, count) (MC.tstar >= T0(ch, block) && MC.tstar <= T1(ch, block, count))
+
+#define TDB_PRE(ch, block, count) \
+	((ch)->block_size == CFG_BS && DATA_OF(ch)->tdb_data_size == CFG_TDB && (count) > -0x7fffffff && \
+	 UNDO_SIZE((ch)->block_size, count) <= 0x7fffffffLL && UNDO_SIZE((ch)->block_size, count) > 0 && \
+	 (block) <= UNDO_MAX_BLOCK && DATA_OF(ch)->offset >= 0 && DATA_OF(ch)->offset <= UNDO_MAX_OFFSET)
+
+#define POST_IN(r) ((r) != 0 || M_PROCESSED)
+
+static errcode_t undo_write_tdb(io_channel channel, unsigned long long block, int count)
+	REQUIRES(TDB_PRE(channel, block, count))
+	REQUIRES(DATA_OF(channel)->tdb_written == 1 && DATA_OF(channel)->keys_in_block < KPB(DATA_OF(channel)))
+	REQUIRES(MC.has_range == (MC.tstar >= ORG(channel) && MC.tstar - ORG(channel) <= UNDO_MAX_BYTE / CFG_TDB) &&
+		 MC.start == (MC.tstar - ORG(channel)) * DATA_OF(channel)->tdb_data_size)
+	REQUIRES(M.bit == MC.old_bit && M.reads == 0 && M.appends == 0 && M.idx == 0 && M.crcs == 0 &&
+		 M.pending == 0 && M.viol == 0 && M.pool_busy == 0 && M.hard_err == 0)
+	ASSIGNS(actual_size, DATA_OF(channel)->num_keys, DATA_OF(channel)->keys_in_block, DATA_OF(channel)->undo_blk_num,
+		DATA_OF(channel)->key_blk_num, DATA_OF(channel)->hdr, __CPROVER_object_whole(DATA_OF(channel)->keyb), M,
+		__CPROVER_object_whole(POOL))
+	ENSURES(M.viol == 0 && M.pool_busy == 0)
+	ENSURES(!IN_RANGE(channel, block, count) || POST_IN(RET))
+	ENSURES(IN_RANGE(channel, block, count) || M_UNTOUCHED);
+
+static void build(void)
 {
 	memset(&CH, 0, sizeof(CH));
 	memset(&REAL, 0, sizeof(REAL));
 	memset(&UFILE, 0, sizeof(UFILE));
 	memset(&DATA, 0, sizeof(DATA));
-	memset(&REAL_MGR, 0, sizeof(REAL_MGR));
-	memset(&UFILE_MGR, 0, sizeof(UFILE_MGR));
-	REAL_MGR.magic = EXT2_ET_MAGIC_IO_MANAGER;
-	REAL_MGR.read_blk64 = st_real_read_blk64;
-	REAL_MGR.write_blk64 = st_real_write_blk64;
-	UFILE_MGR.magic = EXT2_ET_MAGIC_IO_MANAGER;
-	UFILE_MGR.write_blk64 = st_ufile_write_blk64;
 	CH.magic = EXT2_ET_MAGIC_IO_CHANNEL;
 	CH.manager = undo_io_manager;
-	CH.block_size = bs;
+	CH.block_size = CFG_BS;
 	CH.private_data = &DATA;
 	REAL.magic = EXT2_ET_MAGIC_IO_CHANNEL;
-	REAL.manager = &REAL_MGR;
-	REAL.block_size = bs;
+	REAL.block_size = CFG_BS;	/* undo_set_blksize keeps the backing channel's block size equal to the undo channel's */
 	UFILE.magic = EXT2_ET_MAGIC_IO_CHANNEL;
-	UFILE.manager = &UFILE_MGR;
-	UFILE.block_size = (int)tdb;	/* undo_setup_tdb: io_channel_set_blksize(undo_file, tdb_data_size) */
+	UFILE.block_size = CFG_TDB;	/* undo_setup_tdb: io_channel_set_blksize(undo_file, tdb_data_size) */
 	DATA.magic = EXT2_ET_MAGIC_UNIX_IO_CHANNEL;
 	DATA.real = &REAL;
 	DATA.undo_file = &UFILE;
-	DATA.tdb_data_size = tdb;
+	DATA.tdb_data_size = CFG_TDB;
 	DATA.tdb_written = 1;
 	DATA.offset = IN.fs_offset;
-	DATA.keyb = malloc(tdb);
-	verif_p1 = VERIF_POOL;
+	DATA.keyb = malloc(CFG_TDB);
 	ASSUME(DATA.keyb != 0);
 	DATA.num_keys = IN.num_keys;
 	DATA.keys_in_block = IN.keys_in_block;
 	ASSUME(DATA.keys_in_block < KPB(&DATA));
-	/* representation invariant of the key block: sizes are whole fs blocks (no short read happened before) */
-	if (DATA.keys_in_block >= 1)
-		ASSUME(DATA.keyb->keys[DATA.keys_in_block - 1].size % (unsigned)bs == 0);
+#ifdef EXP_KIB0
+	ASSUME(DATA.keys_in_block == 0);
+#endif
 	DATA.undo_blk_num = IN.undo_blk_num;
 	DATA.key_blk_num = IN.key_blk_num;
-	verif_k = IN.tstar;
-	ASSUME(verif_k <= (1ULL << 47));
-	verif_old_bit = IN.bit & 1;
-	verif_g0 = IN.bit & 1;
-	verif_g1 = verif_g2 = verif_g3 = verif_g4 = verif_g5 = verif_g7 = 0;
-	verif_p0 = 0;
-	/* t0 of the spec */
-	verif_g6 = (UNDO_LO(bs, IN.block) + (unsigned long long)IN.fs_offset) / tdb;
-}
-
-#define T1(ch, block, count) ((UNDO_LO((ch)->block_size, block) + (unsigned long long)DATA_OF(ch)->offset + \
-			       (unsigned long long)UNDO_SIZE((ch)->block_size, count) - 1) / DATA_OF(ch)->tdb_data_size)
-#define IN_RANGE(ch, block, count) (verif_k >= verif_g6 && verif_k <= T1(ch, block, count))
-
-#define TDB_PRE(ch, block, count) \
-	(UNDO_BS_OK((ch)->block_size) && UNDO_BS_OK(DATA_OF(ch)->tdb_data_size) && (count) > -0x7fffffff && \
-	 UNDO_SIZE((ch)->block_size, count) <= 0x7fffffffLL && UNDO_SIZE((ch)->block_size, count) > 0 && \
-	 (block) <= UNDO_MAX_BLOCK && DATA_OF(ch)->offset >= 0 && DATA_OF(ch)->offset <= UNDO_MAX_OFFSET)
-
-#define POST_IN(r) ((r) != 0 || (verif_g0 == 1 && verif_g7 == 0 && \
-	(verif_old_bit ? (verif_g1 == 0 && verif_g2 == 0 && verif_g3 == 0) : \
-	 (verif_g1 == 1 && (verif_g5 == 0 ? (verif_g2 == 0 && verif_g3 == 0) : (verif_g2 == 1 && verif_g3 == 1))))))
-#define POST_OUT (verif_g0 == (unsigned long long)verif_old_bit && verif_g1 == 0 && verif_g2 == 0 && verif_g3 == 0)
-
-static errcode_t undo_write_tdb(io_channel channel, unsigned long long block, int count)
-	REQUIRES(TDB_PRE(channel, block, count))
-	REQUIRES(DATA_OF(channel)->tdb_written == 1 && DATA_OF(channel)->keys_in_block < KPB(DATA_OF(channel)))
-	REQUIRES(verif_g6 == (UNDO_LO(channel->block_size, block) + (unsigned long long)DATA_OF(channel)->offset) / DATA_OF(channel)->tdb_data_size)
-	REQUIRES(verif_g0 == (unsigned long long)verif_old_bit && verif_g1 == 0 && verif_g2 == 0 && verif_g3 == 0 && verif_g4 == 0 && verif_g7 == 0)
-	ASSIGNS(actual_size, DATA_OF(channel)->num_keys, DATA_OF(channel)->keys_in_block, DATA_OF(channel)->undo_blk_num,
-		DATA_OF(channel)->key_blk_num, DATA_OF(channel)->hdr, __CPROVER_object_whole(DATA_OF(channel)->keyb),
-		verif_g0, verif_g1, verif_g2, verif_g3, verif_g4, verif_g5, verif_g7, verif_p0)
-	ENSURES(verif_g7 == 0)
-	ENSURES(!IN_RANGE(channel, block, count) || POST_IN(RET))
-	ENSURES(IN_RANGE(channel, block, count) || POST_OUT);
-
-#ifdef VERIF_UNIT_undo_write_tdb_aligned
-#define ALIGNED_ONLY 1
-#endif
-
-static void run(int bs, unsigned long long tdb)
-{
-	build(bs, tdb);
-	ASSUME(TDB_PRE(&CH, IN.block, IN.count));
+	ASSUME(IN.fs_offset >= 0 && IN.fs_offset <= UNDO_MAX_OFFSET);
 #ifdef ALIGNED_ONLY
-	ASSUME(tdb % bs == 0 && IN.fs_offset % (long long)tdb == 0);
+	ASSUME(IN.fs_offset % (long long)CFG_TDB == 0);
 #endif
-	errcode_t r = undo_write_tdb(&CH, IN.block, IN.count);
-	CHECK(verif_g7 == 0, "no backing-channel write inside undo_write_tdb; appended data is the buffer just read, at the next free undo block");
-	if (IN_RANGE(&CH, IN.block, IN.count)) {
-		CHECK(POST_IN(r), "undo block t* in the range: saved exactly once, before; first write wins");
-		REACH("in-range");
-		if (r == 0) REACH("in-range-ok");
-		if (r != 0) REACH("in-range-err");
-		if (r == 0 && !verif_old_bit)
-			REACH("saved");
-		if (r == 0 && verif_old_bit)
-			REACH("already-saved");
-	} else {
-		CHECK(POST_OUT, "undo block t* outside the range: untouched");
-		REACH("outside");
-	}
-}
-
-static void run_all(void)
-{
-#ifdef ONE_CFG
-	run(ONE_CFG);
-	return;
-#endif
-	switch (IN.cfg) {
-	case 0: run(1024, 1024); break;
-	case 1: run(1024, 4096); break;
-	case 2: run(1024, 32768); break;
-	case 3: run(4096, 4096); break;
-	case 4: run(4096, 32768); break;
-	case 5: run(32768, 32768); break;
-	case 6: run(4096, 1024); break;
-	case 7: run(32768, 1024); break;
-	default: run(32768, 4096); break;
-	}
-}
-
-void h_write_tdb_aligned(void)
-{
-	LOAD_IN();
-	run_all();
-	REACH("end");
+	MC.tstar = IN.tstar;
+	/* R(t*) lies inside the byte space the preconditions admit (no wrap-around of the product below) */
+	MC.has_range = MC.tstar >= ORG(&CH) && MC.tstar - ORG(&CH) <= UNDO_MAX_BYTE / CFG_TDB;
+	MC.start = (MC.tstar - ORG(&CH)) * (unsigned long long)CFG_TDB;
+	MC.old_bit = IN.bit & 1;
+	memset(&M, 0, sizeof(M));
+	M.bit = MC.old_bit;
 }
 
 void h_write_tdb(void)
 {
 	LOAD_IN();
-	run_all();
+	build();
+	ASSUME(TDB_PRE(&CH, IN.block, IN.count));
+	errcode_t r = undo_write_tdb(&CH, IN.block, IN.count);
+	CHECK(M.viol == 0, "no backing-channel write inside undo_write_tdb; appended data is the buffer just read, at the next free undo block");
+	CHECK(M.pool_busy == 0, "the block buffer is released on every path");
+	if (IN_RANGE(&CH, IN.block, IN.count)) {
+		CHECK(r != 0 || M.bit == 1, "undo block t* in the range: marked saved");
+		CHECK(r != 0 || MC.old_bit || (M.reads == 1 && M.appends == (M.nbytes != 0) && M.idx == (M.nbytes != 0) && M.crcs == (M.nbytes != 0)),
+		      "t* in the range, not yet saved: its old content read once, appended, keyed with size and crc, indexed");
+		CHECK(r != 0 || !MC.old_bit || (M.reads == 0 && M.appends == 0 && M.idx == 0), "t* in the range, already saved: first write wins");
+		REACH("in-range");
+		if (r == 0 && !MC.old_bit && M.nbytes == CFG_TDB && M.prev_wf) REACH("saved");
+		if (r == 0 && !MC.old_bit && M.nbytes != 0 && M.nbytes != CFG_TDB) REACH("saved-short");
+		if (r == 0 && !MC.old_bit && M.nbytes == 0) REACH("beyond-end");
+		if (r == 0 && MC.old_bit) REACH("already-saved");
+		if (r != 0) REACH("in-range-err");
+	} else {
+		CHECK(M_UNTOUCHED, "undo block t* outside the range: untouched");
+		REACH("outside");
+	}
+#ifdef OBS_RETVAL
+	/* observation, not demanded by C12: a block that lies completely beyond the end of the device (zero-length
+	 * short read) is skipped, but the EXT2_ET_SHORT_READ of that read is what undo_write_tdb finally returns if
+	 * no later callee overwrites retval -> the caller refuses the write although nothing failed */
+	CHECK(r == 0 || M.hard_err, "an error is returned only if a callee failed with something else than a short read");
+#endif
 	REACH("end");
 }
